@@ -4,8 +4,8 @@
 From Coq Require Import String.
 From Coq Require Import ZArith SpecFloat.
 Require Import OV.Base.Bytes OV.Base.Py OV.Base.PyInt OV.Base.Str OV.Base.Regex OV.Base.PyFloat.
-Require Import OV.Gen.C10_Units OV.Model.C10.
-Require Import OV.Proofs.C10_Regex OV.Proofs.C10_Form OV.Proofs.C10_Float.
+Require Import OV.Model.C10_Regex OV.Gen.C10_Units OV.Model.C10.
+Require Import OV.Proofs.C10_Regex OV.Proofs.C10_Form OV.Proofs.C10_Float OV.Proofs.C10.
 Open Scope N_scope.
 
 (* ---------- group-free regexes leave the groups alone ---------- *)
@@ -170,12 +170,16 @@ Lemma incl_one c cs a : cs_incl cs [(a, a)] = true -> cmem c cs = true -> c = a.
 Proof. intros I H. pose proof (cs_incl_sound _ _ I c H) as Q. clear I H. cbn [cmem] in Q. lia. Qed.
 
 (* ---------- the theorem ---------- *)
-Theorem figure_wins details a e g :
-  re_search size_re details = Some (a, e, g) -> gget g 3%nat <> None ->
-  exists ds, group_text details g 4 = Some ds /\ digits ds = true /\ ds <> [] /\
-             extract_bytes details = py_int_lim ds.
+(* what every match of SIZE_RE looks like: group 1 is a text float() accepts; group 3 is either absent
+   or non-empty and then group 4 is a non-empty digit string *)
+Lemma size_match_facts details a e g :
+  re_search size_re details = Some (a, e, g) ->
+  exists w1, group_text details g 1 = Some w1 /\ py_float_of_str w1 <> None /\
+    ((gget g 3%nat = None) \/
+     exists w3 w4, group_text details g 3 = Some w3 /\ w3 <> [] /\
+                   group_text details g 4 = Some w4 /\ digits w4 = true /\ w4 <> []).
 Proof.
-  intros HSr H3.
+  intros HSr.
   pose proof size_ok_true as OK. unfold size_ok in OK.
   destruct (size_parts size_re) as [[[[[[[[e1 ee] es] e2] [[d1 dt] d2]] [[[[WS G2] A1] A2] A3]] d4] REST]|] eqn:EP; [|discriminate].
   apply size_parts_eq in EP.
@@ -195,7 +199,6 @@ Proof.
   assert (Id4 : forall w, allin d4 w = true -> digits w = true)
     by (intros w Hw; rewrite <- allin_nd; apply (allin_incl d4 nd_ranges w); assumption).
   repeat match goal with Hq : cs_incl _ _ = true |- _ => clear Hq end.
-  unfold extract_bytes. rewrite HSr.
   unfold re_search in HSr. apply search_from_sound in HSr.
   destruct HSr as [pre [s1 [s' [Hd [Ha Hm]]]]].
   assert (AT0 : at_pos details s1 a) by (exists pre; split; [exact Hd|lia]).
@@ -256,7 +259,10 @@ Proof.
     apply mt_group_inv in Hq. destruct Hq as [g2' [Hq ->]].
     rewrite (mt_gfree _ _ _ _ _ _ _ Hq) by assumption. split; reflexivity. }
   destruct G2keys as [K3 K1].
-  apply mt_opt_inv in HO3. destruct HO3 as [HG3|[_ [_ ->]]]; [|congruence].
+  assert (T1 : slice details a pA = w1).
+  { rewrite HpA. apply (at_slice details w1 sA a). rewrite <- Hs1. exact AT0. }
+  apply mt_opt_inv in HO3. destruct HO3 as [HG3|[_ [_ ->]]].
+  2:{ exists w1. unfold group_text. rewrite K1, T1. auto. }
   apply mt_group_inv in HG3. destruct HG3 as [g3' [HG3 ->]].
   pose proof (mt_consumes _ _ _ _ _ _ _ HG3) as [w3 [Hs3 Hp3]].
   apply mt_seq_inv in HG3. destruct HG3 as [sD [pD [gD [HA1 HG3]]]].
@@ -273,10 +279,7 @@ Proof.
   apply mt_rep_inv in HG4. destruct HG4 as [w4 [-> [X4 [L4 [_ [-> ->]]]]]].
   rewrite (mt_gfree _ _ _ _ _ _ _ HR) by assumption.
   (* group texts *)
-  unfold group_text. cbn [gget Nat.eqb]. rewrite K1.
-  assert (T1 : slice details a pA = w1).
-  { rewrite HpA. apply (at_slice details w1 sA a). rewrite <- Hs1. exact AT0. }
-  rewrite T1.
+  exists w1. unfold group_text. cbn [gget Nat.eqb]. rewrite K1, T1.
   assert (T4 : slice details pF (pF + blen w4) = w4) by (apply (at_slice details w4 sG pF); exact ATF).
   rewrite T4.
   assert (T3 : slice details pC e = w3).
@@ -287,12 +290,21 @@ Proof.
     pose proof (mt_consumes _ _ _ _ _ _ _ HA1) as [x1 [_ Q1]]. pose proof (mt_consumes _ _ _ _ _ _ _ HA2) as [x2 [_ Q2]].
     pose proof (mt_consumes _ _ _ _ _ _ _ HA3) as [x3 [_ Q3]]. pose proof (mt_consumes _ _ _ _ _ _ _ HR) as [x5 [_ Q5]].
     assert (1 <= blen w4) by (unfold blen; clear - L4; lia). clear - Hp3 Q1 Q2 Q3 Q5 H. lia. }
+  split; [reflexivity|]. split; [exact FL|]. right. exists w3, w4.
+  split; [reflexivity|]. split; [exact N3|]. split; [reflexivity|]. split; [apply Id4; exact X4|].
+  intros ->; cbn in L4; clear - L4; lia.
+Qed.
+
+Theorem figure_wins details a e g :
+  re_search size_re details = Some (a, e, g) -> gget g 3%nat <> None ->
+  exists ds, group_text details g 4 = Some ds /\ digits ds = true /\ ds <> [] /\
+             extract_bytes details = py_int_lim ds.
+Proof.
+  intros HS H3. destruct (size_match_facts details a e g HS) as [w1 [G1 [FL [N|[w3 [w4 [G3 [N3 [G4 [D4 N4]]]]]]]]]]; [congruence|].
+  exists w4. repeat split; try assumption.
+  unfold extract_bytes. rewrite HS, G1, G3, G4.
   destruct w3 as [|c3 w3']; [congruence|]. cbn [truthy].
-  exists w4. split; [reflexivity|]. split; [apply Id4; exact X4|].
-  split; [intros ->; cbn in L4; clear - L4; lia|].
-  destruct (has_e w1).
-  - destruct (py_float_of_str w1); [reflexivity|congruence].
-  - reflexivity.
+  destruct (has_e w1); [destruct (py_float_of_str w1); [reflexivity|congruence]|reflexivity].
 Qed.
 
 (* without a figure, a unit present: the same arithmetic as string_to_bytes (IEC, return_int),
@@ -316,4 +328,110 @@ Proof. vm_compute. reflexivity. Qed.
 Example qemu_figure_beats_unit : extract_bytes (lit "1.0K (7 bytes)") = Ok 7%Z.
 Proof. vm_compute. reflexivity. Qed.
 Example qemu_unit : extract_bytes (lit "1.5G") = Ok 1610612736%Z.
+Proof. vm_compute. reflexivity. Qed.
+
+(* ---------- _extract_bytes raises nothing but ValueError ---------- *)
+
+Lemma py_int_lim_exn s e : py_int_lim s = Exn e -> e = ValueError.
+Proof.
+  unfold py_int_lim. destruct (py_int s); [destruct (int_max_str_digits <? count_digits s)|]; intros H; try discriminate;
+    injection H as <-; reflexivity.
+Qed.
+
+Lemma s2b_false_not_int t u z : string_to_bytes t u false <> Ok (NInt z).
+Proof.
+  unfold string_to_bytes.
+  destruct (lookup u unit_system_info) as [[base rx]|]; [|discriminate].
+  destruct (rz_match rx t) as [[e g]|]; [|discriminate].
+  destruct (group_text t g 1) as [g1|]; [|discriminate].
+  destruct (py_float_of_str g1) as [m|]; [|discriminate].
+  destruct (if is_bit_unit (group_text t g 3) then f_div_int m 8 else Ok m) as [m'|ex]; cbn [bind]; [|discriminate].
+  destruct (group_text t g 2) as [[|c p']|]; cbn [finish]; try discriminate.
+  destruct (lookup (c :: p') unit_prefix_exponent) as [ex|]; [|discriminate].
+  destruct (py_pow _ ex) as [pw|]; cbn [bind]; [|discriminate].
+  destruct (f_mul_int m' pw) as [r|]; cbn [bind finish]; discriminate.
+Qed.
+
+Lemma s2b_int_exn t e : s2b_int t = Exn e -> e = ValueError.
+Proof.
+  unfold s2b_int. destruct (string_to_bytes t (lit "IEC") true) as [[z|x]|ex] eqn:E; intros H; try discriminate.
+  - (* return_int=True never yields a float *)
+    rewrite return_int_is_ceil in E.
+    destruct (string_to_bytes t (lit "IEC") false) as [[z'|r]|ex'] eqn:E2; try discriminate.
+    unfold ceil_or_ValueError in E. destruct (ceil_to_Z r) as [z''|[]]; discriminate.
+  - injection H as <-. apply (only_ValueError _ _ _ _ E).
+Qed.
+
+Theorem extract_bytes_only_ValueError details e : extract_bytes details = Exn e -> e = ValueError.
+Proof.
+  unfold extract_bytes. destruct (re_search size_re details) as [[[a en] g]|] eqn:HS; [|intros H; injection H as <-; reflexivity].
+  destruct (size_match_facts details a en g HS) as [w1 [G1 [FL F3]]].
+  rewrite G1.
+  assert (M : exists mag, (if has_e w1 then match py_float_of_str w1 with None => Exn ValueError | Some x => Ok (float_fmt_f0 x) end else Ok w1) = Ok mag).
+  { destruct (has_e w1); [destruct (py_float_of_str w1); [eauto|congruence]|eauto]. }
+  destruct M as [mag ->]. cbn [bind].
+  destruct F3 as [N|[w3 [w4 [G3 [N3 [G4 _]]]]]].
+  - assert (G3 : group_text details g 3 = None) by (unfold group_text; rewrite N; reflexivity).
+    rewrite G3. cbn [truthy].
+    destruct (group_text details g 2) as [[|c r]|]; try apply py_int_lim_exn. apply s2b_int_exn.
+  - rewrite G3, G4. destruct w3; [congruence|]. cbn [truthy]. apply py_int_lim_exn.
+Qed.
+
+(* ---------- which fields are byte sizes, and what is stored for them ---------- *)
+
+Theorem size_details_fields root_cmd root_details :
+  size_details root_cmd root_details <> None <->
+  (root_cmd = lit "virtual_size" \/ root_cmd = lit "cluster_size" \/ root_cmd = lit "disk_size").
+Proof.
+  unfold size_details. destruct (existsb (beq root_cmd) size_fields) eqn:E.
+  - split; [intros _|discriminate]. apply existsb_exists in E. destruct E as [x [Hx Hb]]. apply beq_eq in Hb. subst x.
+    cbn in Hx. intuition.
+  - split; [congruence|]. intros H. exfalso.
+    assert (existsb (beq root_cmd) size_fields = true); [|congruence].
+    apply existsb_exists. exists root_cmd. split; [cbn; intuition|apply beq_refl].
+Qed.
+
+(* the stored value: 0 for 'None' / 'unavailable', otherwise what _extract_bytes returns OR RAISES *)
+Theorem size_details_value root_cmd root_details : In root_cmd size_fields ->
+  size_details root_cmd root_details =
+  Some (if existsb (beq root_details) zero_words then Ok 0%Z else extract_bytes root_details).
+Proof.
+  intros H. unfold size_details.
+  replace (existsb (beq root_cmd) size_fields) with true; [reflexivity|].
+  symmetry. apply existsb_exists. exists root_cmd. split; [exact H|apply beq_refl].
+Qed.
+
+(* never a silent 0: a stored 0 is one of the two words or a text whose byte count is 0; an unreadable
+   size text is a ValueError, nothing else *)
+Theorem size_details_no_silent_zero root_cmd root_details v :
+  size_details root_cmd root_details = Some v ->
+  (v = Ok 0%Z -> In root_details zero_words \/ extract_bytes root_details = Ok 0%Z) /\
+  (forall e, v = Exn e -> e = ValueError /\ extract_bytes root_details = Exn e) /\
+  (forall e, extract_bytes root_details = Exn e -> ~ In root_details zero_words -> v = Exn e).
+Proof.
+  unfold size_details. destruct (existsb (beq root_cmd) size_fields); [|discriminate].
+  intros H. destruct (existsb (beq root_details) zero_words) eqn:Z; injection H as <-.
+  - apply existsb_exists in Z. destruct Z as [x [Hx Hb]]. apply beq_eq in Hb. subst x.
+    split; [intros _; left; exact Hx|]. split; [intros e He; discriminate He|]. intros e _ N. contradiction.
+  - split; [intros Hv; right; exact Hv|]. split; [|intros e He _; exact He].
+    intros e He. split; [apply (extract_bytes_only_ValueError _ _ He)|exact He].
+Qed.
+
+(* no figure and no unit: int(magnitude) *)
+Theorem no_unit_is_int details a e g g1 :
+  re_search size_re details = Some (a, e, g) -> group_text details g 1 = Some g1 -> has_e g1 = false ->
+  truthy (group_text details g 3) = false -> truthy (group_text details g 2) = false ->
+  extract_bytes details = py_int_lim g1.
+Proof.
+  intros HS G1 HE G3 G2. unfold extract_bytes. rewrite HS, G1, HE, G3. cbn [bind].
+  destruct (group_text details g 2) as [[|c r]|]; try reflexivity. discriminate.
+Qed.
+
+Example ex_size_line : size_of_line (lit "virtual size: 1.5G") = Some (lit "virtual_size", Ok 1610612736%Z).
+Proof. vm_compute. reflexivity. Qed.
+Example ex_size_line_unavailable : size_of_line (lit "Disk-Size:  unavailable ") = Some (lit "disk_size", Ok 0%Z).
+Proof. vm_compute. reflexivity. Qed.
+Example ex_size_line_garbage : size_of_line (lit "cluster_size: n/a") = Some (lit "cluster_size", Exn ValueError).
+Proof. vm_compute. reflexivity. Qed.
+Example ex_other_line : size_of_line (lit "file format: qcow2") = None.
 Proof. vm_compute. reflexivity. Qed.
